@@ -18,11 +18,14 @@ for f in sorted(glob.glob(os.path.join(repo, '*.go'))):
     t = re.sub(r'^(\s*)"math/rand"$', r'\1rand "%svrand"' % MOD, s, flags=re.M)
     t = re.sub(r'^(\s*)"sync"$', r'\1sync "%svsync"' % MOD, t, flags=re.M)
     t = re.sub(r'^(\s*)"sync/atomic"$', r'\1atomic "%svatomic"' % MOD, t, flags=re.M)
+    key = os.path.join('/repo', os.path.basename(f))  # the module always lives at /repo (go.mod replace)
     if t != s:
         o = os.path.join(ovdir, os.path.basename(f))
         open(o, 'w').write(t)
-        ov[f] = o
+        ov[key] = o
+    elif repo != '/repo':
+        ov[key] = f  # demonstration runs against a scratch copy: take every file from it
 here = os.path.dirname(os.path.dirname(os.path.abspath(__file__)))
 for p in ['vsched', 'vsync', 'vatomic', 'vrand']:
-    ov[os.path.join(repo, 'vshim', p, p + '.go')] = os.path.join(here, 'shim', p, p + '.go')
+    ov[os.path.join('/repo', 'vshim', p, p + '.go')] = os.path.join(here, 'shim', p, p + '.go')
 json.dump({'Replace': ov}, open(os.path.join(out, 'ov.json'), 'w'), indent=1)
